@@ -40,10 +40,12 @@ ActionOf(c) ==
     [] a.a = "SetPrange" -> SetPrange(a.i, a.lo, a.hi)
     [] a.a = "SetTag"    -> SetTag(a.i, a.tag)
     [] a.a = "Gm"        -> Gm(a.i)
+    [] a.a = "Reload"    -> Reload(a.i)
+    [] a.a = "Clone"     -> Clone(a.i)
     [] a.a = "Plateau"   -> Plateau(a.i, a.left, a.lo, a.hi)
     [] a.a = "Item"      -> GetItem(a.i, a.t)
 
-Creating == {"Bin", "Scal", "Roll", "Reverse", "Thin", "Symm", "Deriv", "Deriv2", "ItemOf", "Trace", "MatSym", "Hankel"}
+Creating == {"Bin", "Scal", "Roll", "Reverse", "Thin", "Symm", "Deriv", "Deriv2", "ItemOf", "Trace", "MatSym", "Hankel", "Reload", "Clone"}
 KnownAction(c) == c.act.a \in Creating \cup {"SetPrange", "SetTag", "Gm", "Plateau", "Item"}
 \* the recorded operand indices refer to objects of the specification's pool, and there is room for a result
 WellAddressed(c) ==
